@@ -4,6 +4,9 @@
 // needs them (comment-only file, compiled only under the build tag "verif").
 package cli
 
+// Every function under contract in this package also serves the properties that depend on the whole package.
+//@ package-props C01
+
 // Parsing, display and query-type lookup do not touch the caller's flag variables.
 // Their bodies (prototext parsing, client dialling, output formatting) are not verified.
 //@ func ParseSubscribeProto
